@@ -111,15 +111,20 @@ def cxxio_pass(prop, tier, seed):
 
 
 WIN_HANDLE_CLASSES = {
-    "C10": ("win-std-handles", "win-start-failed", "win-process-handle"),
-    "C11": ("win-handle-list-not-in-force", "win-handle-list-missing", "win-handle-list-foreign", "win-foreign-handle-made-inheritable"),
+    "C10": ("win-std-handles", "win-start-failed", "win-process-handle",
+            # src/win.c --redirect: redirect.windows.c (which object, which direction)
+            "win-parent-wrong-std-id", "win-parent-wrong-handle", "win-parent-missing-not-reported", "win-file-redirect-failed",
+            "win-file-wrong-direction", "win-file-wrong-name", "win-file-disposition", "win-file-handle"),
+    "C11": ("win-handle-list-not-in-force", "win-handle-list-missing", "win-handle-list-foreign", "win-foreign-handle-made-inheritable",
+            "win-file-inheritable"),
     "C05": ("win-closes-callers-handle", "win-thread-handle"),
     # src/win.c --life: wait / terminate / kill / pid of process.windows.c at the Win32 boundary
     "C01": ("win-wait-status",),
     "C06": ("win-wait-target", "win-terminate-target", "win-kill-target", "win-pid"),
     "C07": ("win-terminate-target", "win-kill-target"),
 }
-WIN_MODE = {"C10": "--handles", "C11": "--handles", "C05": "--handles", "C01": "--life", "C06": "--life", "C07": "--life"}
+WIN_MODE = {"C10": ["--handles", "--redirect"], "C11": ["--handles", "--redirect"], "C05": ["--handles"],
+            "C01": ["--life"], "C06": ["--life"], "C07": ["--life"]}
 
 
 def win_handles_pass(prop, tier, seed):
@@ -133,10 +138,11 @@ def win_handles_pass(prop, tier, seed):
     env.update(core.SAN_ENV)
     nw = 4
 
-    def work(w):
-        return core.run_timed([binp, WIN_MODE[prop], str(w), str(nw), tier, str(seed)], env, 600)
+    def work(job):
+        mode, w = job
+        return core.run_timed([binp, mode, str(w), str(nw), tier, str(seed)], env, 600)
     with ThreadPoolExecutor(nw) as ex:
-        outs = list(ex.map(work, range(nw)))
+        outs = list(ex.map(work, [(m, w) for m in WIN_MODE[prop] for w in range(nw)]))
     obs = {"win_handle_cases": 0}
     viols = []
     mine = WIN_HANDLE_CLASSES[prop]
